@@ -1938,6 +1938,53 @@ impl Vm {
     }
 }
 
+/// Verification hooks (feature `verif_hooks`): read-only probes of interpreter state.
+#[cfg(feature = "verif_hooks")]
+pub mod verif {
+    #[derive(Clone, Debug, Default, PartialEq)]
+    pub struct VmState {
+        pub handling_exception: bool,
+        pub has_fiber: bool,
+        pub frames: usize,
+        pub stack_len: usize,
+        pub handlers: usize,
+        pub has_caller: bool,
+        pub working_class_def: bool,
+        pub modules: usize,
+        pub chunks: usize,
+        pub core_chunks: usize,
+        pub range_cache: usize,
+        pub fiber_coherent: bool,
+    }
+}
+
+#[cfg(feature = "verif_hooks")]
+impl Vm {
+    pub fn verif_state(&self) -> verif::VmState {
+        let mut state = verif::VmState {
+            handling_exception: self.handling_exception,
+            has_fiber: self.fiber.is_some(),
+            working_class_def: self.working_class_def.is_some(),
+            modules: self.modules.len(),
+            chunks: self.chunks.len(),
+            core_chunks: self.core_chunks.len(),
+            range_cache: self.range_cache.len(),
+            fiber_coherent: true,
+            ..Default::default()
+        };
+        if let Some(fiber) = self.fiber.as_ref() {
+            state.fiber_coherent = (**fiber).as_ptr() as usize == self.unsafe_fiber as usize;
+            if let Ok(fiber) = fiber.try_borrow() {
+                state.frames = fiber.frames.len();
+                state.stack_len = fiber.stack.len();
+                state.handlers = fiber.exc_handlers.len();
+                state.has_caller = fiber.caller.is_some();
+            }
+        }
+        state
+    }
+}
+
 mod string_store {
     use std::mem;
 
